@@ -83,6 +83,7 @@ func sweepGen(r *term.Rng, idx int) term.T {
 	switch {
 	case k < 2*nc:
 		o.forceChar = contentCat.chars[k%nc]
+		o.showcase = k >= nc // the second build of every character
 	case k < 2*nc+nl:
 		cone := contentCat.cones[k-2*nc]
 		o.forceCone = cone
@@ -145,5 +146,8 @@ func sweepKinds(in term.T) map[string]int {
 }
 
 func init() {
-	register("sweep", component{gen: sweepGen, run: sweepRun, kinds: sweepKinds})
+	register("sweep", component{gen: sweepGen, run: sweepRun, kinds: sweepKinds,
+		hung: func(term.T) term.T {
+			return obsTerm(runObs{status: 3, msg: "the run did not return within the per-case time limit (it fails to stop)"})
+		}})
 }
